@@ -124,10 +124,11 @@ theorem op_preserves {L L' : Ledger} {op : Op} (hinv : Inv L) (hsafe : Op.Safe L
 /-- an accepted genesis satisfies `InvStaking` (amounts being `uint64`). The loader's duplicate rejection
 (`ValidateGenesisState`, b164a5d; pinned by `genesis_rejects_duplicates`) is what makes the tallies start exact. -/
 theorem invStaking_genesis {cfg : Config} {params : Params} {accounts : List (Addr × Nat)} {pools : List (Nat × Nat)}
-    {vals : List GenesisValidator} {retired : List Nat} {L : Ledger}
+    {vals : List GenesisValidator} {retired : List Nat} {books : List GenesisBook} {L : Ledger}
     (ha : ∀ e ∈ accounts, e.2 < 2 ^ 64) (hp : ∀ e ∈ pools, e.2 < 2 ^ 64) (hv : ∀ g ∈ vals, g.val.stake < 2 ^ 64)
-    (h : genesis cfg params accounts pools vals retired = .ok L) : Inv L :=
-  ⟨Canopy.C04.inv_genesis ha hp hv h, genesis_percentsOK h,
+    (ho : ∀ b ∈ books, ∀ x ∈ b.2, x < 2 ^ 64)
+    (h : genesis cfg params accounts pools vals retired books = .ok L) : Inv L :=
+  ⟨Canopy.C04.inv_genesis ha hp hv ho h, genesis_percentsOK h,
    genesis_invStaking (fun e he => by have := ha e he; unfold MAXU; omega) (fun e he => by have := hp e he; unfold MAXU; omega)
     (fun g hg => by have := hv g hg; unfold MAXU; omega) h, committeesDistinct_of_zero (genesis_dup_zero h)⟩
 
@@ -145,10 +146,11 @@ theorem inv_reachable {L₀ L : Ledger} (h0 : Inv L₀) (hr : Reachable L₀ L) 
 
 /-- … in particular from every accepted genesis -/
 theorem invStaking_from_genesis {cfg : Config} {params : Params} {accounts : List (Addr × Nat)} {pools : List (Nat × Nat)}
-    {vals : List GenesisValidator} {retired : List Nat} {L₀ L : Ledger}
+    {vals : List GenesisValidator} {retired : List Nat} {books : List GenesisBook} {L₀ L : Ledger}
     (ha : ∀ e ∈ accounts, e.2 < 2 ^ 64) (hp : ∀ e ∈ pools, e.2 < 2 ^ 64) (hv : ∀ g ∈ vals, g.val.stake < 2 ^ 64)
-    (hg : genesis cfg params accounts pools vals retired = .ok L₀) (hr : Reachable L₀ L) : InvStaking L :=
-  (inv_reachable (invStaking_genesis ha hp hv hg) hr).2.2.1
+    (ho : ∀ b ∈ books, ∀ x ∈ b.2, x < 2 ^ 64)
+    (hg : genesis cfg params accounts pools vals retired books = .ok L₀) (hr : Reachable L₀ L) : InvStaking L :=
+  (inv_reachable (invStaking_genesis ha hp hv ho hg) hr).2.2.1
 
 /-- the loader's duplicate rejection as regenerated from the body of `ValidateGenesisState` on this run: which key of
 each record list goes through a `DeDuplicator`, and the error returned on a repeat — the model returns the same ones -/
@@ -161,7 +163,7 @@ theorem genesis_dedup_pinned : Canopy.Gen.LedgerFacts.genesisDedup = [
 /-- an accepted genesis lists no validator address, account address or pool id twice, and no validator lists a
 committee twice -/
 theorem genesis_accepts_only_distinct {cfg : Config} {params : Params} {accounts : List (Addr × Nat)} {pools : List (Nat × Nat)}
-    {vals : List GenesisValidator} {retired : List Nat} {L : Ledger} (h : genesis cfg params accounts pools vals retired = .ok L) :
+    {vals : List GenesisValidator} {retired : List Nat} {books : List GenesisBook} {L : Ledger} (h : genesis cfg params accounts pools vals retired books = .ok L) :
     (vals.map (·.addr)).Nodup ∧ (accounts.map (·.1)).Nodup ∧ (pools.map (·.1)).Nodup ∧ ∀ g ∈ vals, g.val.committees.Nodup := by
   unfold genesis at h
   split at h
@@ -263,13 +265,14 @@ theorem never_wedged_future : ∀ (n : Nat) (L : Ledger), Inv L → L.cfg.blocks
 /-- **never wedged, every reachable ledger**: after any sequence of successful modelled operations from an accepted
 genesis, the next empty block applies and leaves the invariant in place -/
 theorem never_wedged_from_genesis {cfg : Config} {params : Params} {accounts : List (Addr × Nat)} {pools : List (Nat × Nat)}
-    {vals : List GenesisValidator} {retired : List Nat} {L₀ L : Ledger}
+    {vals : List GenesisValidator} {retired : List Nat} {books : List GenesisBook} {L₀ L : Ledger}
     (ha : ∀ e ∈ accounts, e.2 < 2 ^ 64) (hp : ∀ e ∈ pools, e.2 < 2 ^ 64) (hv : ∀ g ∈ vals, g.val.stake < 2 ^ 64)
-    (hg : genesis cfg params accounts pools vals retired = .ok L₀) (hr : Reachable L₀ L)
+    (ho : ∀ b ∈ books, ∀ x ∈ b.2, x < 2 ^ 64)
+    (hg : genesis cfg params accounts pools vals retired books = .ok L₀) (hr : Reachable L₀ L)
     (hb : L.cfg.blocksPerHalvening ≠ 0) (hx : L.supply.total + scheduledMint L < 2 ^ 64)
     (hh : (L.height + L.params.unstakingBlocks) % 2 ^ 64 ≠ 0) :
     ∃ L', emptyBlock L = .ok L' ∧ L'.height = L.height + 1 ∧ Inv L' :=
-  never_wedged (inv_reachable (invStaking_genesis ha hp hv hg) hr) hb hx hh
+  never_wedged (inv_reachable (invStaking_genesis ha hp hv ho hg) hr) hb hx hh
 
 /-- a ledger with reward percents waiting: validator 1 (auto-compounding) is paid 60 %, account 9 is paid 30 % of the
 1000 tokens in the reward pool of chain 1 -/
